@@ -6,7 +6,7 @@
 From Coq Require Import ZArith QArith Qcanon List Lia.
 From DV Require Import Base.Field Base.FieldFacts Base.LinAlg Base.QcInst Model.Enums Model.Homog Model.Grid Model.Sampler
   Model.SamplerQc Model.Flow Model.FlowQc Model.FlowRepr Gen.GridT Proofs.C11Interp Proofs.C11Compose Proofs.C11Expv
-  Proofs.C13Compose Proofs.C10Axes Proofs.C10Conv Proofs.C10Repr Proofs.C10Conv3 Proofs.C10Sample.
+  Proofs.C13Compose Proofs.C10Axes Proofs.C10Conv Proofs.C10Repr Proofs.C10Conv3 Proofs.C10Sample Proofs.C10SampleLin Proofs.C10SampleLin3 Proofs.C10Spec.
 Import ListNotations.
 
 Section Statements.
@@ -133,6 +133,34 @@ Proof.
   - now apply (regrid_then_convert K Kf Kc D HD).
   - now apply (regrid_same K Kf Kc D HD).
 Qed.
+
+(* 8. FlowFields.sample AS A WHOLE (resample every channel at the target grid's points mapped into the source cube, zeros
+      or border padding, then re-scale the vectors to the new grid) commutes with changing the representation:
+      sample o axes = axes o sample, all 16 axes pairs, both conventions, any source / target lattice sizes, any two
+      well-formed grids -- Grid.transform_vectors is a constant matrix per item and multilinear sampling is linear per channel *)
+Theorem C10_sample_commutes_with_axes_2d :
+  forall pad ac (A B : axes) (g g' : @gridf K) nx ny nx' ny' f0 f1,
+  (1 <= nx)%Z -> (1 <= ny)%Z -> (1 <= nx')%Z -> (1 <= ny')%Z -> gwf 2 g -> gwf 2 g' ->
+  sample_item2 floorK pad ac B g g' nx' ny' (field_map2 (gvecs 2 A B g) (field2 K nx ny f0 f1))
+  = field_map2 (gvecs 2 A B g') (sample_item2 floorK pad ac A g g' nx' ny' (field2 K nx ny f0 f1)).
+Proof. exact (sample_item2_commutes_with_axes K Kf Kc floorK). Qed.
+Theorem C10_sample_commutes_with_axes_3d :
+  forall pad ac (A B : axes) (g g' : @gridf K) nx ny nz nx' ny' nz' f0 f1 f2,
+  (1 <= nx)%Z -> (1 <= ny)%Z -> (1 <= nz)%Z -> (1 <= nx')%Z -> (1 <= ny')%Z -> (1 <= nz')%Z -> gwf 3 g -> gwf 3 g' ->
+  sample_item3 floorK pad ac B g g' nx' ny' nz' (field_map3 (gvecs 3 A B g) (field3 K nx ny nz f0 f1 f2))
+  = field_map3 (gvecs 3 A B g') (sample_item3 floorK pad ac A g g' nx' ny' nz' (field3 K nx ny nz f0 f1 f2)).
+Proof. exact (sample_item3_commutes_with_axes K Kf Kc floorK). Qed.
+
+(* 9. the closed forms of Grid.transform_vectors traced from core/grid.py ARE the specified vector maps through index space
+      (Model/Grid.v Tv_map = from_index_vec B o to_index_vec A; e.g. WORLD -> CUBE: v -> diag(2/n) diag(1/s) R^T v), for all
+      axes pairs other than WORLD -> WORLD (which is the identity by C10_axes_same) *)
+Theorem C10_transform_vectors_closed_forms :
+  forall (A B : axes) (n s c : nat -> K) (d : nat -> nat -> K), not_both_world A B ->
+  (wf 2 n s d -> forall v0 v1, gvecs 2 A B (n, s, c, d) [v0; v1] = Tv_map 2 A B (vtab 2 n) (vtab 2 s) (tab 2 2 d) [v0; v1]) /\
+  (wf 3 n s d -> forall v0 v1 v2, gvecs 3 A B (n, s, c, d) [v0; v1; v2] = Tv_map 3 A B (vtab 3 n) (vtab 3 s) (tab 3 3 d) [v0; v1; v2]).
+Proof.
+  intros A B n s c d HW. split; intros Hw **; [now apply (gvecs_spec2 K Kf Kc) | now apply (gvecs_spec3 K Kf Kc)].
+Qed.
 End Statements.
 
 Print Assumptions C10_axes_roundtrip.
@@ -151,6 +179,9 @@ Print Assumptions C10_exp_spec_repr_independent_3d.
 Print Assumptions C10_exp_repr_independent_3d.
 Print Assumptions C10_warp_repr_independent_3d.
 Print Assumptions C10_sample_vectors_repr_independent.
+Print Assumptions C10_sample_commutes_with_axes_2d.
+Print Assumptions C10_sample_commutes_with_axes_3d.
+Print Assumptions C10_transform_vectors_closed_forms.
 
 (* regression witness: the variant that exponentiates the UNCONVERTED tensor (the defect repaired in /repo 245f8d5) is
    told apart from the specification -- WORLD axes on a 3 x 2 anisotropic rotated grid *)
@@ -181,3 +212,14 @@ Proof.
     + apply meqb_eq. vm_compute. reflexivity.
   - vm_compute. split; reflexivity.
 Qed.
+
+(* non-vacuity of the sample theorems: a second well-formed grid (other size / spacing), on which resampling the witness
+   field is not trivial and the two sides of the commutation theorem (WORLD -> CUBE) compute to the same field *)
+Definition wg' : @gridf QcF :=
+  (fun i => nth i [q 2 1; q 3 1] (q 1 1), fun i => nth i [q 1 1; q 1 1] (q 1 1), fun i => nth i [q 10 1; q (-3) 1] (q 0 1),
+   fun i j => nth j (nth i [[q 3 5; q (-4) 5]; [q 4 5; q 3 5]] []) (q 0 1)).
+Example C10_sample_nonvacuous :
+  feqb2 (sample_item2 (K:=QcF) floorQ PZeros false WORLD wg wg' 2 3 wu) [[[q 0 1; q 0 1]; [q 0 1; q 0 1]; [q 0 1; q 0 1]]; [[q 0 1; q 0 1]; [q 0 1; q 0 1]; [q 0 1; q 0 1]]] = false /\
+  feqb2 (sample_item2 (K:=QcF) floorQ PZeros false CUBE wg wg' 2 3 (field_map2 (gvecs 2 WORLD CUBE wg) wu))
+        (field_map2 (gvecs 2 WORLD CUBE wg') (sample_item2 (K:=QcF) floorQ PZeros false WORLD wg wg' 2 3 wu)) = true.
+Proof. vm_compute. split; reflexivity. Qed.
